@@ -412,7 +412,7 @@ fn st_size(st: &St, cursor: u32) -> u32
 	match st
 	{
 		St::Addr(..) | St::Const(..) | St::Label(..) | St::Global(..) | St::Import(..) | St::Export(..) | St::Raw(..) => 0,
-		St::Align(n) => if cursor % n == 0 {0} else {n - cursor % n},
+		St::Align(n) => if *n == 0 || cursor % n == 0 {0} else {n - cursor % n},
 		St::Du(k, _) => *k as u32,
 		St::Dstr(s) => s.len() as u32,
 		St::Dhex(b) => b.len() as u32,
@@ -576,7 +576,10 @@ fn gen_body(g: &mut Gen, n: usize, depth: usize, shape: &mut Vec<&'static str>, 
 			{
 				shape.push("dfile");
 				g.next_file += 1;
-				St::Dfile(format!("blob{}.bin", g.next_file), (0..g.rng.below(2000) % 1500).map(|_| g.rng.next() as u8).collect())
+				{
+					let len = if g.rng.chance(1, 12) {*g.rng.pick(&[1023u64, 1024, 1025, 2049])} else {g.rng.below(40)};
+					St::Dfile(format!("blob{}.bin", g.next_file), (0..len).map(|_| g.rng.next() as u8).collect())
+				}
 			},
 			8 => {shape.push("align"); St::Align(*g.rng.pick(&[1u32, 2, 4, 8, 16, 3, 256]))},
 			9 | 10 | 11 => {shape.push("fixed-instr"); let (t, f) = g.rng.pick(FIXED); St::Ins(Ins::Fixed(t.to_string(), f()))},
@@ -838,6 +841,157 @@ fn image_str(img: &BTreeMap<u32, u8>) -> String
 		prev = Some(*a);
 	}
 	if out.is_empty() {"-".to_owned()} else {out}
+}
+
+
+// ---------------------------------------------------------------------------------------------------------
+// abstract form for the Lean layout model (single-file programs only)
+
+fn abstract_form(stmts: &[St], env: &HashMap<String, i64>) -> Option<String>
+{
+	let mut ids: HashMap<String, usize> = HashMap::new();
+	let mut id = |n: &str, ids: &mut HashMap<String, usize>| -> usize {let k = ids.len() + 1; *ids.entry(n.to_owned()).or_insert(k)};
+	let deps_of = |e: &E, ids: &mut HashMap<String, usize>, id: &mut dyn FnMut(&str, &mut HashMap<String, usize>) -> usize| -> String
+	{
+		let mut names = Vec::new();
+		e.names(&mut names);
+		if names.is_empty() {"-".to_owned()} else {names.iter().map(|n| id(n, ids).to_string()).collect::<Vec<_>>().join(",")}
+	};
+	let mut out = Vec::new();
+	let mut cursor: Option<u32> = None;
+	for st in stmts
+	{
+		let here = cursor;
+		match st
+		{
+			St::Addr(a) => cursor = Some(*a),
+			other => if let Some(c) = cursor.as_mut() {*c = c.wrapping_add(st_size(other, *c));},
+		}
+		out.push(match st
+		{
+			St::Addr(a) => format!("A:{a}"),
+			St::Align(n) => format!("G:{n}"),
+			St::Label(n) => format!("L:{}", id(n, &mut ids)),
+			St::Const(n, e) =>
+			{
+				let d = deps_of(e, &mut ids, &mut id);
+				format!("C:{}:{}:{}", id(n, &mut ids), d, e.eval(env).unwrap_or(0))
+			},
+			St::Du(k, e) =>
+			{
+				let d = deps_of(e, &mut ids, &mut id);
+				let bytes = match (e.eval(env), k)
+				{
+					(Some(v), 1) => u8::try_from(v).ok().map(|x| vec![x]),
+					(Some(v), 2) => u16::try_from(v).ok().map(|x| x.to_le_bytes().to_vec()),
+					(Some(v), _) => u32::try_from(v).ok().map(|x| x.to_le_bytes().to_vec()),
+					(None, _) => None,
+				}.unwrap_or_else(|| vec![0; *k as usize]);
+				format!("E:{k}:{d}:{}", hex(&bytes))
+			},
+			St::Dstr(s) => format!("R:{}", hex(s.as_bytes())),
+			St::Dhex(b) | St::Dfile(_, b) => format!("R:{}", hex(b)),
+			St::Ins(Ins::Fixed(_, i)) => format!("R:{}", hex(&enc(i))),
+			St::Ins(ins) =>
+			{
+				let d = deps_of(ins.expr().unwrap(), &mut ids, &mut id);
+				let mut bytes = here.and_then(|a| ins.value(a, env)).map(|i| enc(&i)).unwrap_or_default();
+				if bytes.is_empty() {bytes = vec![0; ins.size() as usize];}
+				format!("E:{}:{d}:{}", ins.size(), hex(&bytes))
+			},
+			St::Global(..) | St::Import(..) | St::Export(..) | St::Include(..) | St::Raw(..) => return None,
+		});
+	}
+	Some(if out.is_empty() {"-".to_owned()} else {out.join(";")})
+}
+
+fn fail_kind(o: &Outcome) -> String
+{
+	if let Some(c) = &o.close_err {return format!("close:{c}");}
+	let Some(first) = o.errors.first() else {return "fail ?".to_owned()};
+	let m = &first.3;
+	let k = if m.contains("already occupied") {"occupied"}
+		else if m.contains("segment overflow") || m.contains("alignment too long") {"overflow"}
+		else if m.contains("duplicate") {"duplicate"}
+		else if m.contains("no such") {"undefined"}
+		else if m.contains("no active segment") {"inactive"}
+		else if m.contains("out of range") {"range"}
+		else {"other"};
+	format!("fail {k}")
+}
+
+/// AST-level damage that keeps the program inside the layout model's language
+fn damage(rng: &mut Rng, stmts: &mut Vec<St>) -> &'static str
+{
+	let addr_idx: Vec<usize> = stmts.iter().enumerate().filter(|(_, s)| matches!(s, St::Addr(..))).map(|(i, _)| i).collect();
+	let label_idx: Vec<usize> = stmts.iter().enumerate().filter(|(_, s)| matches!(s, St::Label(..))).map(|(i, _)| i).collect();
+	match rng.below(7)
+	{
+		0 if addr_idx.len() >= 2 =>
+		{
+			// make a later region start inside / at / just before an earlier one
+			let i = *rng.pick(&addr_idx[1..]);
+			let St::Addr(first) = stmts[addr_idx[0]] else {unreachable!()};
+			stmts[i] = St::Addr(first.wrapping_add(rng.below(4) as u32).wrapping_sub(rng.below(3) as u32));
+			"collide"
+		},
+		1 if !label_idx.is_empty() =>
+		{
+			let i = *rng.pick(&label_idx);
+			let l = stmts[i].clone();
+			let at = rng.below(stmts.len() as u64 + 1) as usize;
+			stmts.insert(at, l);
+			"duplicate-label"
+		},
+		2 if !label_idx.is_empty() => {stmts.remove(*rng.pick(&label_idx)); "remove-label"},
+		3 => {stmts.remove(0); "no-first-addr"},
+		4 if !addr_idx.is_empty() =>
+		{
+			let i = *rng.pick(&addr_idx);
+			stmts[i] = St::Addr(0xFFFF_FFFF - rng.below(6) as u32);
+			"top"
+		},
+		5 if !addr_idx.is_empty() =>
+		{
+			// re-select the base of the current region later on
+			let i = *rng.pick(&addr_idx);
+			let a = stmts[i].clone();
+			let at = (i + 1 + rng.below(4) as usize).min(stmts.len());
+			stmts.insert(at, a);
+			"reselect"
+		},
+		_ =>
+		{
+			let at = rng.below(stmts.len() as u64 + 1) as usize;
+			stmts.insert(at, St::Align(*rng.pick(&[0u32, 1, 2, 4, 64, 0x8000_0000])));
+			"align"
+		},
+	}
+}
+
+/// correspondence of the real pipeline with `Trion.Layout.run` (and of the reference with `Trion.Layout.Ref.layout`)
+fn check_layout_model(cx: &mut Cx, stmts: &[St], env: &HashMap<String, i64>, project: &Project, dir: &std::path::Path, reference: Option<&BTreeMap<u32, u8>>)
+{
+	let Some(abs) = abstract_form(stmts, env) else {return};
+	project.write(dir);
+	let real = match run_real(dir)
+	{
+		Err(p) => format!("PANIC {p}"),
+		Ok(o) => if o.close_err.is_none() && o.finalize {format!("ok {}", image_str(&o.image))} else {fail_kind(&o)},
+	};
+	let model = cx.model.ask(&format!("layout run {abs}"));
+	let model_c = if model == "fail PANIC" {"PANIC".to_owned()} else {model.clone()};
+	let real_c = if real.starts_with("PANIC") {"PANIC".to_owned()} else {real.clone()};
+	cx.report.hit(&format!("layout model: {}", real_c.split(' ').take(2).collect::<Vec<_>>().join(" ").chars().take(14).collect::<String>().split(':').next().unwrap_or("")));
+	// kinds of failure are compared only coarsely: both fail, or both succeed with the same image
+	let agree = if real_c.starts_with("ok ") || model_c.starts_with("ok ") {real_c == model_c} else {true};
+	if !agree {cx.report.disagree("model.layout.run", format!("layout {abs} | {}", project.to_input()), model, real);}
+	if let Some(img) = reference
+	{
+		let r = cx.model.ask(&format!("layout ref {abs}"));
+		let want = format!("ok {}", image_str(img));
+		if r != want {cx.report.disagree("model.layout.ref", format!("layout {abs} | {}", project.to_input()), r, want);}
+	}
 }
 
 // ---------------------------------------------------------------------------------------------------------
@@ -1178,7 +1332,26 @@ non-trivial = non-empty image; distinct = distinct images".to_owned();
 				for s in &gen.shape {cx.report.hit(&format!("shape: {s}"));}
 				if made <= 3 {cx.report.sample(String::from_utf8_lossy(&gen.project.files[0].1).chars().take(400).collect::<String>());}
 				check_c05(cx, &gen, &dir);
-				if cx.report.oracle_failures_total >= 20 {break;}
+				check_layout_model(cx, &gen.stmts, &gen.env, &gen.project, &dir, Some(&gen.image));
+				if made % 3 == 0
+				{
+					// damaged variants: only model vs implementation (success/failure and image), no reference
+					let mut st = gen.stmts.clone();
+					let what = damage(&mut rng, &mut st);
+					if abstract_form(&st, &gen.env).is_some()
+					{
+						cx.report.hit(&format!("damage: {what}"));
+						let mut files = Vec::new();
+						let mut rr = rng.fork();
+						let main = render_stmts(&st, &mut rr, &mut files);
+						let mut all = vec![("main.asm".to_owned(), main.into_bytes())];
+						all.extend(files);
+						let p = Project{files: all};
+						check_layout_model(cx, &st, &gen.env, &p, &dir, None);
+						cx.report.cases(1);
+					}
+				}
+				if cx.report.oracle_failures_total >= 20 || cx.report.disagreements_total >= 20 {break;}
 			}
 			cx.report.hit_n("programs", made as u64);
 		},
